@@ -129,6 +129,13 @@ class PointTier(textgrid_tier.TextgridTier):
 
     def deleteEntry(self, entry: Point) -> None:
         """Removes an entry from the entries"""
+        # Entries compare equal within a tolerance; if several entries are
+        # that close to each other, remove the one that was asked for
+        for i, candidate in enumerate(self._entries):
+            if isinstance(entry, Point) and tuple(candidate) == tuple(entry):
+                self._entries.pop(i)
+                return
+
         self._entries.pop(self._entries.index(entry))
 
     def dejitter(
